@@ -51,6 +51,8 @@ INVALID = [
     ('syntax', '# id: k # colour: red globally: no a'),
     ('syntax', '# title: "t" # description: "d" # size: 3 globally: no a'),
     ('syntax', '# id: k # title: globally: no a'),
+    ('syntax', '# title: "a\nb" globally: no a'),
+    ('syntax', 'globally: no a {s = "a\nb"}'),
 ]
 
 SEPS = (' ', '\n', '\n\n\t')
@@ -94,6 +96,8 @@ def plan(tier):
     for i in range(len(INVALID)):
         units.append(('invalid', tier, i))
     units.append(('empty', tier))
+    units.append(('pairs', tier))
+    units.append(('module', tier))
     return units
 
 
@@ -251,6 +255,56 @@ def run(unit):
             if st != 'syntax':
                 r.violation('dangling annotation accepted', {'text': text}, f'«{text}» -> {st}', size=len(text))
         r.sample({'invalid_member': bad, 'class': cls})
+    elif what == 'pairs':
+        # two malformed members that could "repair" each other (an unterminated string in an earlier
+        # property, a stray quote in a later one): the file must still be rejected
+        openers = ['# title: "abc globally: no a', 'globally: no a {s = "abc}', '# description: "d globally: some b', '# id: k # title: "t globally: no a {x > 1}']
+        closers = ['" globally: no b', 'globally: no b {s = abc"}', '# title: x" globally: no c', 'until e: b requires c {s = "}']
+        for o in openers:
+            for c in closers:
+                for mid in ([], [POOL[0]], [annotate(POOL[2], ('id',), 7)[0]]):
+                    parts = [o] + mid + [c]
+                    for sep in ('\n', '\n\n', ' \n\t'):  # a string cannot span lines, so the members stay malformed
+                        text = sep.join(parts)
+                        r.count('evaluations')
+                        r.count('states')
+                        r.count('transitions')
+                        st, spec = impl.try_parse('spec', text)
+                        r.outcomes['pair:' + st] += 1
+                        if st == 'ok':
+                            r.violation('file with two malformed members is accepted', {'text': text, 'pair': True}, f'«{text}» parsed into {len(spec.properties)} properties', size=len(text))
+        r.sample({'malformed_pair': openers[0] + ' / ' + closers[0]})
+    elif what == 'module':
+        # the module-level helpers: a result (and its metadata) belongs to the caller; parsing the same text
+        # again must give what the text says
+        import hpl.parser as HP
+
+        texts = ['# id: p1\nglobally: no a\n# title: "t"\nafter b: some c', 'globally: no a', '# id: only\nuntil e: a requires b within 1 s']
+        for text in texts:
+            for fname, kind in (('parse_specification', 'spec'), ('parse_property', 'prop')):
+                if kind == 'prop' and text.count(':') > 3 and 'after b' in text:
+                    continue
+                r.count('evaluations')
+                r.count('states')
+                r.count('transitions', 3)
+                fn = getattr(HP, fname)
+                try:
+                    first = fn(text)
+                except Exception:  # noqa: BLE001
+                    continue
+                props_ = list(first.properties) if kind == 'spec' else [first]
+                before = [observe_prop(p_) for p_ in props_]
+                for p_ in props_:
+                    p_.metadata['id'] = 'edited'
+                    p_.metadata.pop('title', None)
+                    p_.metadata['extra'] = 1
+                second = fn(text)
+                props2 = list(second.properties) if kind == 'spec' else [second]
+                after = [observe_prop(p_) for p_ in props2]
+                if after != before:
+                    r.violation(f'{fname}: a second parse of the same text reflects edits made to the first result', {'text': text, 'module': fname}, f'{fname}({text!r}) twice: {after} vs {before}', size=len(text))
+                if any(a is b_ for a in props_ for b_ in props2):
+                    r.violation(f'{fname}: two parses of the same text return the same objects', {'text': text, 'module': fname}, f'{fname}({text!r})', size=len(text))
     else:
         for text in ('', ' ', '\n', '\t\n  \n'):
             r.count('evaluations')
@@ -265,6 +319,11 @@ def run(unit):
 
 def replay(w):
     r = Result()
+    if w.get('pair'):
+        st, _ = impl.try_parse('spec', w['text'])
+        return [{'sig': 'file with two malformed members is accepted', 'detail': w['text']}] if st == 'ok' else []
+    if w.get('module'):
+        return [{'sig': v['sig'], 'detail': v['detail']} for v in run(('module', 'quick')).violations]
     if 'parts' in w:
         metas = []
         return [{'sig': k, 'detail': d} for k, d in check_file(w['parts'], [dict(single(p)[1][1]) if single(p)[0] == 'ok' else {} for p in w['parts']], w['sep'], r)]
@@ -275,7 +334,7 @@ def replay(w):
 def describe(tier):
     b = bounds(tier)
     return {
-        'rule': f"all sequences of 1..{b['seq_len']} properties from a 14-text pool (and {b['seq_len'] + 1}..{b['seq_len_small_pool']} from a 4-text sub-pool) x every assignment of one of the 16 annotation arrangements (subsets and orders of id/title/description) to <= {b['annotated_members']} members, plus all members fully annotated, x 3 separators; one-invalid-member variants (14 kinds x every index in files of 1..3) and dangling/empty/whitespace files; after every rejected file a valid annotated file is parsed with the same parser object (history of length 2). Each file is compared index by index (typed lift and metadata) with the property parser on the parts. A state = one file text; a transition = one specification parse.",
+        'rule': f"all sequences of 1..{b['seq_len']} properties from a 14-text pool (and {b['seq_len'] + 1}..{b['seq_len_small_pool']} from a 4-text sub-pool) x every assignment of one of the 16 annotation arrangements (subsets and orders of id/title/description) to <= {b['annotated_members']} members, plus all members fully annotated, x 3 separators; one-invalid-member variants (16 kinds x every index in files of 1..3) and dangling/empty/whitespace files; after every rejected file a valid annotated file is parsed with the same parser object (history of length 2); 4 x 4 pairs of malformed members that could repair each other (unterminated string / stray quote) x 3 fillers x 3 separators; the module-level parse_specification / parse_property called twice on the same text with the first result's metadata edited in between. Each file is compared index by index (typed lift and metadata) with the property parser on the parts. A state = one file text; a transition = one specification parse.",
         'bounds': b,
         'exhaustive': True,
         'assumptions': ['the property parser on each part alone is the reference (differential oracle); its own correctness is C01'],
